@@ -105,3 +105,64 @@ def weights(shape, xc, yc, r, method, subpixels=5):
     w[y0:y1, x0:x1] = inside.reshape(sh).sum(axis=(1, 3)) / (s * s)
     amb[y0:y1, x0:x1] = tie.reshape(sh).sum(axis=(1, 3)) / (s * s)
     return w, amb
+
+
+# ---------------------------------------------------------------------------- raw data profile (RadialProfile.data_radius / data_profile)
+def data_points(shape, xc, yc, rmax, tie=None):
+    """Documented definition of the raw data profile: the image pixels whose centre lies within ``rmax`` of
+    (xc, yc).  -> (iy, ix, r, certain): integer pixel indices, their radii and a flag that is False for a pixel
+    within ``tie`` of the circle (either decision is accepted for those).  Plain loops over ALL pixels of the image:
+    no bounding box, hence nothing that could mix up the two axes."""
+    ny, nx = shape
+    tie = 1e-12 * (1.0 + rmax) if tie is None else tie
+    iy, ix, rr, cert = [], [], [], []
+    for y in range(ny):
+        for x in range(nx):
+            r = math.hypot(x - xc, y - yc)
+            if r <= rmax + tie:
+                iy.append(y)
+                ix.append(x)
+                rr.append(r)
+                cert.append(r < rmax - tie)
+    return (np.array(iy, dtype=int), np.array(ix, dtype=int), np.array(rr, dtype=float), np.array(cert, dtype=bool))
+
+
+def _value_key(v):
+    v = np.array(v, dtype=float).ravel()
+    v = np.where(np.isnan(v), np.nan, v) + 0.0        # one NaN pattern; -0.0 + 0.0 = +0.0
+    return np.ascontiguousarray(v).view(np.uint64)
+
+
+def match_points(got_r, got_v, cand_r, cand_v, cand_required, tol):
+    """Multiset comparison of (radius, value) pairs.  Every returned pair must be an image pixel of the candidate
+    list (value bit-exact, NaN = NaN; radius within ``tol``), every *required* candidate must be returned exactly once,
+    the other candidates may be returned or not.  Pairs are grouped by value and, within a value, into clusters of
+    radii closer than ``tol`` (so pixels at symmetric positions with the same value are interchangeable); in a
+    cluster with q required and o optional candidates the number g of returned pairs must satisfy q <= g <= q + o.
+    -> (missing, extra, example) numbers of required pixels not returned / returned pairs that match no pixel."""
+    got_r = np.array(got_r, dtype=float).ravel()
+    got_r = np.where(np.isfinite(got_r), got_r, -1.0)          # a non-finite radius matches nothing
+    cand_r = np.array(cand_r, dtype=float).ravel()
+    cand_required = np.asarray(cand_required, dtype=bool).ravel()
+    r = np.concatenate([cand_r, got_r])
+    k = np.concatenate([_value_key(cand_v), _value_key(got_v)])
+    kind = np.concatenate([np.where(cand_required, 0, 1), np.full(got_r.size, 2)])
+    if r.size == 0:
+        return 0, 0, None
+    order = np.lexsort((r, k))
+    r, k, kind = r[order], k[order], kind[order]
+    new = (k[1:] != k[:-1]) | (r[1:] - r[:-1] > tol)
+    cid = np.concatenate([[0], np.cumsum(new)])
+    n = int(cid[-1]) + 1
+    q = np.bincount(cid, weights=(kind == 0), minlength=n)
+    o = np.bincount(cid, weights=(kind == 1), minlength=n)
+    g = np.bincount(cid, weights=(kind == 2), minlength=n)
+    miss = np.maximum(q - g, 0)
+    extra = np.maximum(g - q - o, 0)
+    example = None
+    bad = np.nonzero((miss > 0) | (extra > 0))[0]
+    if bad.size:
+        j = int(np.nonzero(cid == bad[0])[0][0])
+        example = {'radius': float(r[j]), 'value': repr(float(k[j:j + 1].view(np.float64)[0])),
+                   'required': int(q[bad[0]]), 'optional': int(o[bad[0]]), 'returned': int(g[bad[0]])}
+    return int(miss.sum()), int(extra.sum()), example
